@@ -1590,7 +1590,9 @@ chop_more:
 		p->six += slen;
 
 	proc:
-		if (p->six && (res = _ical_proc(p)) == NULL) {
+		if (!p->six || (res = _ical_proc(p)) == NULL) {
+			/* nothing to report (yet), that goes for
+			 * empty lines as well */
 			goto chop_more;
 		}
 	}
